@@ -40,7 +40,7 @@ EXPLANATION = ("Theorems: removed candidates are absent, every output ranking is
                "candidates as one last position, tie expansion yields prod(k_i!) ballots of equal weight adding up to "
                "the original.")
 
-N_QUICK, N_THOROUGH = 2400, 28800
+N_QUICK, N_THOROUGH = 2400, 86400
 
 
 def cases(rng, tier, shard, nshards, phase):
